@@ -9,8 +9,10 @@ import (
 	"os"
 	"sort"
 	"strings"
+	"sync"
 	"sync/atomic"
 	"testing/synctest"
+	"time"
 
 	quic "github.com/refraction-networking/uquic"
 	u "github.com/refraction-networking/uquic/internal/verifutil"
@@ -71,6 +73,7 @@ type smCase struct {
 	nwakes    int
 	failed    map[string]bool
 	profile   int
+	raceTaken [2]int
 }
 
 const (
@@ -309,6 +312,16 @@ func (c *smCase) monState() {
 		if m != c.advIn[t] && !(m == 0 && c.advIn[t] == 0) {
 			c.monfail("incoming/enforced-vs-advertised", fmt.Sprintf("enforced stream limit %d differs from the advertised one %d", m, c.advIn[t]))
 		}
+		// every stream the peer opened is handed to a waiting AcceptStream
+		na := 0
+		for _, x := range c.acceptors {
+			if x.uni == (t == 1) && x.gen == c.gen {
+				na++
+			}
+		}
+		if na > 0 && !in.Closed && c.accepted[t] < o {
+			c.monfail("accept/stuck", fmt.Sprintf("%d AcceptStream callers stay blocked although the peer opened %d streams and %d were accepted", na, o, c.accepted[t]))
+		}
 		out := c.v.SnapOut(t == 1)
 		pw := c.parkedWaiters(t == 1)
 		if len(pw) > 0 && !out.Closed && c.openedOut[t] < c.peerMax[t] {
@@ -317,6 +330,134 @@ func (c *smCase) monState() {
 		if len(pw) != len(out.Queue) {
 			c.monfail("fifo/queue-length", fmt.Sprintf("%d callers blocked, openQueue has %d entries", len(pw), len(out.Queue)))
 		}
+	}
+}
+
+// smHookCtx is a context whose Done() runs a hook the first time it is evaluated, i.e. on the
+// OpenStreamSync goroutine after it enqueued itself and released the mutex, right before it
+// blocks in the select. The hook returns an already closed channel: the context counts as
+// cancelled from then on. This realises the schedule "credit arrives and the context is
+// cancelled while the caller is between Unlock and select" without any race: the order of the
+// critical sections is fixed, only the select's choice between two ready cases is the runtime's.
+type smHookCtx struct {
+	hook  func() <-chan struct{}
+	once  sync.Once
+	ch    <-chan struct{}
+	fired atomic.Bool
+}
+
+func (h *smHookCtx) Deadline() (time.Time, bool) { return time.Time{}, false }
+func (h *smHookCtx) Done() <-chan struct{} {
+	h.once.Do(func() { h.ch = h.hook(); h.fired.Store(true) })
+	return h.ch
+}
+func (h *smHookCtx) Err() error {
+	if h.fired.Load() {
+		return context.Canceled
+	}
+	return nil
+}
+func (h *smHookCtx) Value(any) any { return nil }
+
+// tryRace: caller A becomes the head of an empty open queue; before A reaches its select, a
+// second caller B queues up behind it, MAX_STREAMS arrives (wake-up token for A) and A's
+// context is cancelled. Whichever select case A takes, B must not be forgotten.
+func (c *smCase) tryRace() bool {
+	r, v := c.r, c.v
+	uni := r.Bool()
+	t := b2i(uni)
+	out := v.SnapOut(uni)
+	if c.closed || c.reset || len(out.Queue) != 0 || out.Closed || c.openedOut[t] < c.peerMax[t] {
+		return false
+	}
+	a := &smCaller{uni: uni, gen: c.gen, w: c.nextW, cancel: func() {}}
+	b := &smCaller{uni: uni, gen: c.gen, w: c.nextW + 1}
+	c.nextW += 2
+	n := c.peerMax[t] + r.Pick(1, 1, 2)
+	f0, c0 := v.NumFrames(), v.NumCreated()
+	var fA, fB, fM int
+	closed := make(chan struct{})
+	close(closed)
+	bctx, bcancel := context.WithCancel(context.Background())
+	b.cancel = bcancel
+	hctx := &smHookCtx{}
+	hctx.hook = func() <-chan struct{} {
+		fA = v.NumFrames()
+		c.spawn(b, bctx)
+		synctest.Wait()
+		fB = v.NumFrames()
+		v.MaxStreams(uni, n)
+		fM = v.NumFrames()
+		return closed
+	}
+	doneCh := make(chan struct{})
+	go func() {
+		defer close(doneCh)
+		defer func() {
+			if p := recover(); p != nil {
+				a.panicked.Store(fmt.Sprint(p))
+				a.err = 7
+			}
+			a.finished.Store(true)
+		}()
+		a.id, a.err = v.OpenSync(hctx, uni)
+	}()
+	<-doneCh
+	synctest.Wait()
+	if p := a.panicked.Load(); p != nil {
+		c.monfail("panic", fmt.Sprintf("OpenStreamSync panicked: %v", p))
+	}
+	opA := u.App("OSyncCall", u.B(uni), u.Z(a.w), "false")
+	if !hctx.fired.Load() { // A did not block at all
+		if a.err == 0 {
+			c.monOpened(uni, a.id, "OpenStreamSync")
+		}
+		c.step(opA, smRes(a.id, a.err, false), v.Frames(f0), fmt.Sprintf("opensync(%v,w%d,false)", uni, a.w))
+		c.collect(v.NumFrames(), c0)
+		return true
+	}
+	all := v.Frames(f0)
+	c.step(opA, "RParked", all[:fA-f0], fmt.Sprintf("opensync(%v,w%d,false)", uni, a.w))
+	c.blockedCheck(uni, "OpenStreamSync blocks", nil)
+	c.waiters = append(c.waiters, a)
+	opB := u.App("OSyncCall", u.B(uni), u.Z(b.w), "false")
+	// B's state right after the hook's Wait cannot be read any more; it parked iff it is still
+	// unfinished now or finished with a stream created after A's
+	c.step(opB, "RParked", all[fA-f0:fB-f0], fmt.Sprintf("opensync(%v,w%d,false)", uni, b.w))
+	c.waiters = append(c.waiters, b)
+	if q := v.SnapOut(uni).Queue; len(q) > 0 && !b.finished.Load() {
+		b.ch = q[len(q)-1]
+	}
+	if n > c.peerMax[t] {
+		c.peerMax[t] = n
+	}
+	c.step(u.App("OMaxStreams", u.B(uni), u.Z(n)), "RUnit", all[fB-f0:fM-f0], fmt.Sprintf("maxstreams(%v,%d)", uni, n))
+	// A's own step comes first: its critical section precedes every wake-up it caused
+	for i, y := range c.waiters {
+		if y == a {
+			c.waiters = append(c.waiters[:i:i], c.waiters[i+1:]...)
+			break
+		}
+	}
+	c.nwakes++
+	if a.err == 0 {
+		c.monOpened(uni, a.id, fmt.Sprintf("OpenStreamSync(waiter %d)", a.w))
+		c.step(u.App("OSyncWake", u.B(uni), u.Z(a.w)), smRes(a.id, a.err, false), all[fM-f0:], fmt.Sprintf("wake(w%d)", a.w))
+		c.raceTaken[0]++
+	} else {
+		c.step(u.App("OSyncCancel", u.B(uni), u.Z(a.w)), smRes(a.id, a.err, false), all[fM-f0:], fmt.Sprintf("cancel-with-token(w%d)", a.w))
+		c.raceTaken[1]++
+	}
+	c.collect(v.NumFrames(), c0)
+	return true
+}
+
+// C15(b): whenever opening fails or blocks because of the peer's limit, a STREAMS_BLOCKED for
+// that limit has been queued (now or earlier).
+func (c *smCase) blockedCheck(uni bool, what string, _ []quic.VerifSMFrame) {
+	t := b2i(uni)
+	if !c.blockedAt[t][c.peerMax[t]] {
+		c.monfail("blocked/missing", fmt.Sprintf("%s at limit %d but no STREAMS_BLOCKED was queued for that limit", what, c.peerMax[t]))
 	}
 }
 
@@ -413,6 +554,9 @@ func (c *smCase) ext(f func()) (frames []quic.VerifSMFrame, frameEnd, createdFro
 func (c *smCase) doOp() {
 	r := c.r
 	v := c.v
+	if r.Chance(1, 14) && c.tryRace() {
+		return
+	}
 	k := r.Intn(100)
 	switch {
 	case c.profile == 1 && r.Chance(3, 5): // outgoing-heavy: Open, OpenSync, cancels, MAX_STREAMS
@@ -520,6 +664,9 @@ func (c *smCase) doOp() {
 			c.monfail("open/refused-below-limit", fmt.Sprintf("OpenStream failed with %d of %d streams opened and nobody waiting", c.openedOut[b2i(uni)], c.peerMax[b2i(uni)]))
 		}
 		c.step(u.App("OOpen", u.B(uni)), smRes(id, e, false), fr, fmt.Sprintf("open(%v)", uni))
+		if e == smErrLimitReached {
+			c.blockedCheck(uni, "OpenStream fails", nil)
+		}
 		c.collect(fe, cf)
 	case k < 80: // OpenStreamSync
 		uni := r.Bool()
@@ -551,6 +698,7 @@ func (c *smCase) doOp() {
 			}
 			c.waiters = append(c.waiters, x)
 			c.step(op, "RParked", fr, fmt.Sprintf("opensync(%v,w%d,%v)", uni, x.w, pre))
+			c.blockedCheck(uni, "OpenStreamSync blocks", nil)
 		}
 		c.collect(fe, cf)
 	case k < 86: // cancel a blocked OpenStreamSync
@@ -776,6 +924,8 @@ func runSMCase(w *bufio.Writer, r *u.Rng, dist map[string]int) {
 		if c.gen > 0 {
 			dist["with-0rtt-reset"]++
 		}
+		dist["race-token-taken"] += c.raceTaken[0]
+		dist["race-cancel-with-token-pending"] += c.raceTaken[1]
 		if c.closed {
 			dist["with-close"]++
 		}
